@@ -1,4 +1,4 @@
-"""C18 — callback adapters fire exactly once with the right outcome (callback_await, make_promise, discard,
+"""C18 — callback adapters fire exactly once with the right outcome (callback_await, make_promise / future_with_cb, discard,
 future_conv, call_fn_future_awaiter)."""
 import itertools
 from vlib.runner import Spec, Suite
@@ -25,7 +25,7 @@ def adapter_headers():
     """every adapter x value type x allocator (x converter shape x behaviour) the harness can instantiate"""
     hs = []
     for T in TYPES:
-        for a in ("cbawait", "cbref", "cbawt", "cbwrap", "mkprom"):
+        for a in ("cbawait", "cbref", "cbawt", "cbwrap", "mkprom", "mkcb"):
             for al in ("heap", "stor"):
                 hs.append("cb %s %s %s" % (a, T, al))
         hs.append("cb discard %s heap" % T)
@@ -37,7 +37,7 @@ def adapter_headers():
                 hs.append("cb conv %s none %s %s %s%s" % (frm, shape, to, behav, hlp))
     # source flavour "the factory returns future<int&>" (ReturnsFuture admits it; constructed in place inside the adapter's
     # future<int>) for every adapter that takes a source factory
-    for a in ("cbawait", "cbref", "cbawt", "cbwrap"):
+    for a in ("cbawait", "cbref", "cbawt", "cbwrap", "mkcb"):
         for al in ("heap", "stor"):
             hs.append("cb %s intref %s" % (a, al))
     hs += ["cb discard intref heap", "cb callfn intref none", "cb callawt intref none"]
@@ -64,15 +64,20 @@ def make_case(header, body, sched):
     return {"id": 0, "lines": ["case 0 " + header] + body + ["sched " + " ".join(map(str, sched)), "end"]}
 
 
-def goes_through_result_of(header):
-    """adapters that start the operation with future<T>::result_of (`_fut << factory`): a throwing factory is caught there"""
-    return header.split()[1] in ("conv", "callfn")
+# adapters that start the awaited operation themselves and answer for a start that throws: conv / callfn / mkcb go through
+# future<T>::result_of (`_fut << factory`: the exception is caught there and the re-created future resolved with it),
+# callback_await constructs the awaitable inside the try block of its helper coroutine (the callback receives the exception)
+START_MAY_THROW = ("conv", "callfn", "mkcb", "cbawait")
+
+
+def start_may_throw(header):
+    return header.split()[1] in START_MAY_THROW
 
 
 def timing_bodies(rng, header):
     """one random scenario body (thread lines + pre/imm) for the adapter of `header`"""
     is_mk = header.split()[1] == "mkprom"
-    modes = ["conc", "conc", "conc", "self", "dtor"] + ([] if is_mk else ["pre", "imm"]) + (["fthrow"] if goes_through_result_of(header) else [])
+    modes = ["conc", "conc", "conc", "self", "dtor"] + ([] if is_mk else ["pre", "imm"]) + (["fthrow"] if start_may_throw(header) else [])
     mode = rng.choice(modes)
     body, k = [], 0
     if mode == "fthrow":
@@ -114,11 +119,12 @@ def gen_random(rng, count):
     return cases
 
 
-def gen_contract(rng, count):
-    """contract-violating stream (Pre false): the callback_await callback throws on its first invocation"""
+def gen_cbthrow(rng, count):
+    """the callback_await callback throws once it has looked at its result: it must not be called a second time (the helper's
+    catch branch serves failures of the awaited operation only); every timing, outcome and allocator"""
     cases = []
     for i in range(count):
-        header = "cb cbawait %s %s" % (rng.choice(TYPES), rng.choice(["heap", "stor"]))
+        header = "cb cbawait %s %s" % (rng.choice(TYPES + ["intref"]), rng.choice(["heap", "stor"]))
         mode, body = timing_bodies(rng, header)
         body.insert(1, "cbthrow")
         n = sum(1 for l in body if l.split()[0] in ("g", "r", "d"))
@@ -137,7 +143,7 @@ def gen_sequential():
             if not is_mk:
                 cases.append(make_case(header, ["g", "pre " + rk_words(k, j)], []))
                 cases.append(make_case(header, ["g", "imm " + rk_words(k, j)], []))
-        if goes_through_result_of(header):
+        if start_may_throw(header):
             cases.append(make_case(header, ["g", "fthrow 6"], []))
             cases.append(make_case(header, ["g self value 3", "fthrow 7"], []))
         cases.append(make_case(header, ["g"], []))
@@ -187,7 +193,7 @@ def seq_round(timing, kind, n, header=None):
     """one operation with a sequential (single effective thread order) timing"""
     w = rk_words(kind, n)
     if timing == "fthrow":
-        if header is not None and goes_through_result_of(header):
+        if header is not None and start_may_throw(header):
             return (["g", "fthrow %d" % (n + 4)], [])
         timing, w = "imm", rk_words("exc", n)
     if timing == "pre":
@@ -242,6 +248,7 @@ def gen_reuse_exhaustive(headers, length):
 
 # one representative header per adapter code path (value type int), for the exhaustive enumerations of the quick tier
 CORE = ["cb cbawait int heap", "cb cbawait int stor", "cb cbref int heap", "cb mkprom int heap", "cb mkprom int stor",
+        "cb mkcb int heap", "cb mkcb void stor", "cb mkcb intref heap",
         "cb discard int heap", "cb callfn int none", "cb conv int none m int ok", "cb conv void none m int ok",
         "cb conv int none p int ok", "cb conv int none f int throw",
         "cb callawt int none", "cb cbawt int heap", "cb cbwrap int stor",
@@ -278,7 +285,7 @@ def valid_round(i):
         return False
     if (i["imm"] or i["fthrow"]) and len(th) > 1:
         return False
-    if i["fthrow"] and (i["pre"] or i["imm"] or i["adapter"] not in ("conv", "callfn")):
+    if i["fthrow"] and (i["pre"] or i["imm"] or i["adapter"] not in START_MAY_THROW):
         return False
     if i["adapter"] == "mkprom" and (i["pre"] or i["imm"]):
         return False
@@ -411,10 +418,10 @@ class CallbackSuite(Suite):
     def gen_cases0(self, rng, tier):
         if tier == "quick":
             return (gen_sequential() + gen_exhaustive(HEADERS, 6) + gen_exhaustive(CORE, 8) + gen_exhaustive(HEADERS, 5, with_dtor=True)
-                    + gen_random(rng, 4000) + gen_contract(rng, 100)
+                    + gen_random(rng, 4000) + gen_cbthrow(rng, 400)
                     + gen_reuse_sequential(REUSABLE, rng) + gen_reuse_exhaustive(CORE_REUSE, 5) + gen_reuse_random(rng, 2500))
         return (gen_sequential() + gen_exhaustive(HEADERS, 8) + gen_exhaustive(HEADERS, 7, with_dtor=True)
-                + gen_exhaustive(CORE, 10) + gen_exhaustive3(rng, HEADERS, 8, 24) + gen_random(rng, 40000) + gen_contract(rng, 600)
+                + gen_exhaustive(CORE, 10) + gen_exhaustive3(rng, HEADERS, 8, 24) + gen_random(rng, 40000) + gen_cbthrow(rng, 3000)
                 + gen_reuse_sequential(REUSABLE, rng, 20) + gen_reuse_exhaustive(REUSABLE, 6) + gen_reuse_random(rng, 25000))
 
     def distinct_key(self, case, out):
@@ -430,6 +437,7 @@ class CallbackSuite(Suite):
 
     def stats(self, cases, outs):
         adapters, timing, outcomes, alloc, completer, nops, pairs, reads, ctxs, flav = {}, {}, {}, {}, {}, {}, {}, {}, {}, {}
+        sthrow, cbthr = {}, {}
         switches = refused = ready_first = parked = 0
         flat = []
         for c in cases:
@@ -452,6 +460,12 @@ class CallbackSuite(Suite):
                 flav["... of which already resolved via static future<T&>::set_value"] = flav.get("... of which already resolved via static future<T&>::set_value", 0) + 1
             if i["read"]:
                 reads[i["read"]] = reads.get(i["read"], 0) + 1
+            if i["fthrow"]:
+                sthrow[i["adapter"]] = sthrow.get(i["adapter"], 0) + 1
+            if i["cbthrow"]:
+                k = "callback throws holding a value (pinned code: second call from the catch branch)" if any(x.startswith("v") for x in i["cb"][:1]) \
+                    else "callback throws holding an exception / broken promise"
+                cbthr[k] = cbthr.get(k, 0) + 1
             if i["adapter"] == "cbawait":
                 k = "from a running coroutine (deferred helper start)" if i["coro"] else "from ordinary code"
                 ctxs[k] = ctxs.get(k, 0) + 1
@@ -459,7 +473,7 @@ class CallbackSuite(Suite):
             adapters[a] = adapters.get(a, 0) + 1
             alloc[i["alloc"]] = alloc.get(i["alloc"], 0) + 1
             g = i["threads"][0] if i["threads"] else ["g"]
-            tm = "factory-throws(result_of catch)" if i["fthrow"] else "imm" if i["imm"] else "pre" if i["pre"] else "self" if len(g) > 1 else "other-thread"
+            tm = "start-throws(result_of catch / helper's catch branch)" if i["fthrow"] else "imm" if i["imm"] else "pre" if i["pre"] else "self" if len(g) > 1 else "other-thread"
             if tm == "other-thread" and not any(t[0] == "r" for t in i["threads"]):
                 tm = "destroyed"
             timing[tm] = timing.get(tm, 0) + 1
@@ -488,7 +502,7 @@ class CallbackSuite(Suite):
                     break
             completer[who] = completer.get(who, 0) + 1
         return {"source_flavour(operations)": flav, "callback_await_calling_context(operations)": ctxs, "await_result_read_spelling(operations)": reads, "operations_per_case": nops, "reuse_consecutive_operations(registration outcome)": pairs,
-                "contract_violating_cases(callback throws)": sum(1 for c in cases if "cbthrow" in c["lines"]),
+                "callback_throws(operations)": cbthr, "start_of_operation_throws(operations by adapter)": sthrow,
                 "adapters": adapters, "timing": timing, "source_outcome": outcomes, "allocator": alloc,
                 "registration_refused_by_cas": refused, "ready_at_await_ready": ready_first, "parked_then_resumed": parked,
                 "completion_run_by": completer, "context_switches_total": switches}
@@ -533,13 +547,9 @@ class CallbackSuite(Suite):
         if so is None:
             return []          # two successful invocations: C01's subject, not an adapter failure
         exp = show(so, T)
-        # --- exactly once, with the operation's outcome
-        if i["cbthrow"]:
-            # outside the contract (Pre: callbacks do not throw): callback_await_coro calls a throwing callback again from its
-            # catch block; the statement only constrains the helper block here
-            if not i["cb"] or i["cb"][0] != exp:
-                msgs.append("outcome: callback saw %s first, the operation's outcome is %s" % (i["cb"][:1], exp))
-        elif ad in CBAWAIT + ("mkprom", "callfn", "callawt"):
+        # --- exactly once, with the operation's outcome (also for a callback that throws: `cbthrow`, and for an operation whose
+        #     start threw: `fthrow`, outcome = that exception)
+        if ad in CBAWAIT + ("mkprom", "mkcb", "callfn", "callawt"):
             if len(i["cb"]) != 1:
                 msgs.append("once: callback ran %d times for one awaited operation" % len(i["cb"]))
             for o in i["cb"]:
@@ -574,7 +584,7 @@ class CallbackSuite(Suite):
                 if i["outer"] != want:
                     msgs.append("conv: outer future holds %s, expected %s for source outcome %s" % (" ".join(i["outer"]), " ".join(want), exp))
         # --- the helper block: allocated once where the adapter owns one, released exactly once, after the completion
-        want_alloc = {"cbawait": 1, "cbref": 1, "cbawt": 1, "cbwrap": 1, "mkprom": 1, "discard": 1}.get(ad, 0)
+        want_alloc = {"cbawait": 1, "cbref": 1, "cbawt": 1, "cbwrap": 1, "mkprom": 1, "mkcb": 1, "discard": 1}.get(ad, 0)
         allocs = [e for e in i["events"] if e[0] == "alloc"]
         frees = [e for e in i["events"] if e[0] == "free"]
         if len(allocs) != want_alloc:
@@ -610,14 +620,15 @@ class C18(Spec):
     pid = "C18"
     lean_modules = ["CoclsModel.Props.C18"]
     design_ref = "DESIGN.md §5 C18"
-    technique = ("Lean 4 invariant proof over all schedules of a micro-step model of the five adapters + step-for-step differential replay "
+    technique = ("Lean 4 invariant proof over all schedules of a micro-step model of the adapters + step-for-step differential replay "
                  "on the real headers under a baton scheduler (exhaustive small schedules, random larger ones)")
-    level_text = ("Lean 4 theorems over a micro-step model (one step per operation on the two shared atomics) of callback_await, make_promise, discard, "
+    level_text = ("Lean 4 theorems over a micro-step model (one step per operation on the two shared atomics) of callback_await, make_promise, future_with_cb::operator<<, discard, "
                   "future_conv, call_fn_future_awaiter and the hand-subscribed call_fn_awaiter (callback_await also on awaiter objects / awaiter_wrapper from retrieve_awaiter, "
                   "await_result read through get / operator* / operator bool / operator!): for every adapter, outcome, timing (resolved inside the factory, by the registering thread "
                   "afterwards, by any number of racing invocations / destructors on other threads) and every schedule the completion runs at most once, "
                   "exactly once at quiescence, sees the operation's outcome, the helper block is released exactly once and only after the completion, a "
-                  "refused subscription is completed by the registrar itself, converters deliver convRes(outcome), and a member-object adapter re-armed for any number of "
+                  "refused subscription is completed by the registrar itself, a callback_await callback that throws is not called again, an operation whose start throws "
+                  "(factory / constructor of the awaitable) is completed once with that exception, converters deliver convRes(outcome), and a member-object adapter re-armed for any number of "
                   "successive operations (any combination of timings) does all this once per operation (the awaiter node's _next link is modelled and proved to be unlinked "
                   "again after every operation). The model is tied to the headers by "
                   "replaying enumerated and random schedules on the unmodified code and diffing every line; oracles evaluate the statement on the "
@@ -631,8 +642,9 @@ class C18(Spec):
                     "C++20 coroutine machinery and libstdc++ as specified"]
     assumptions = ["lvalue arguments of callback_await are stored by reference by design (scheduler::start relies on it); the theorem about argument "
                    "liveness is about the copies the helper frame owns of rvalue arguments",
-                   "Pre: callbacks, converters' promise handling and factories do not throw out of the adapter "
-                   "(callback_await_coro would call a throwing callback a second time from its catch block; documented contract)",
+                   "the callbacks of make_promise / future_with_cb, call_fn_future_awaiter and call_fn_awaiter are invoked from noexcept resume "
+                   "functions: a throw there is std::terminate, not a behaviour of the adapter (callback_await callbacks and source factories may "
+                   "throw: modelled and exercised)",
                    "an lvalue callback passed to callback_await is kept alive by the caller (it is stored by reference)",
                    "~promise is sequenced after every invocation of that promise object (C++ object lifetime)",
                    "one awaited operation per helper at a time (future_conv / call_fn_future_awaiter are re-armed only after completion)",
